@@ -133,17 +133,37 @@ func c13Gates(c *ctx) {
 // (the one verified), is dominated by the gate and the returned share derives from its result.
 func checkDecryptsVerified(c *ctx, rule string, fn *ssa.Function, gate *ssa.Call, cBParam, skParam int) {
 	key := fkey(rule, fn, "decrypt-verified-ciphertext")
-	decs := core.CallsTo(fn, "(*~/crypto/paillier.PrivateKey).Decrypt")
+	// the decryption may sit in a private helper shared by AliceEnd and AliceEndWC (their common tail)
+	var decs []ssa.CallInstruction
+	for _, g := range unitFuncs(fn) {
+		if g.Parent() == nil {
+			decs = append(decs, core.CallsTo(g, "(*~/crypto/paillier.PrivateKey).Decrypt")...)
+		}
+	}
 	if len(decs) != 1 {
 		c.r.Bad(rule, key, c.fpos(fn), fmt.Sprintf("expected exactly one Decrypt call, found %d", len(decs)))
 		return
 	}
 	d := decs[0].(*ssa.Call)
-	args := callArgTerms(d)
-	ok := args[0].Key() == paramTerm(fn, skParam).Key() && args[1].Key() == paramTerm(fn, cBParam).Key()
-	if gate != nil {
-		ok = ok && core.InstrDominates(gate, d)
-		if _, has := core.HasCallFact(core.TFactsAt(d.Block(), 0), true, core.CalleeName(gate)); !has {
+	ok := core.FrameTerm(fn, d.Call.Args[0]).Key() == paramTerm(fn, skParam).Key() && core.FrameTerm(fn, d.Call.Args[1]).Key() == paramTerm(fn, cBParam).Key()
+	// where the decryption happens in fn: the call itself, or the call of the helper that holds it
+	var at ssa.Instruction = d
+	if d.Parent() != fn {
+		at = nil
+		n := 0
+		for _, cs := range core.Calls(fn) {
+			if core.Callee(cs) == d.Parent() {
+				at = cs
+				n++
+			}
+		}
+		if n != 1 {
+			at = nil
+		}
+	}
+	if gate != nil && at != nil {
+		ok = ok && core.InstrDominates(gate, at)
+		if _, has := core.HasCallFact(core.TFactsAt(at.Block(), 0), true, core.CalleeName(gate)); !has {
 			ok = false
 		}
 	} else {
